@@ -2,6 +2,7 @@
 //   drive [--alloc] [--cpu=none|sse41|avx2] [--info] [OPSFILE]
 #[path = "../../common/exec.rs"]
 mod exec;
+mod guard;
 
 use exec::{Cpu, Machine, Out};
 use std::alloc::{GlobalAlloc, Layout, System};
@@ -143,7 +144,15 @@ fn main() {
     let mut alloc_mode = false;
     let mut want_info = false;
     let mut file: Option<String> = None;
+    let mut guard_mode: Option<(u64, bool, bool)> = None;
     for a in std::env::args().skip(1) {
+        if let Some(spec) = a.strip_prefix("--guard=") {
+            // --guard=<seed>,<quick|thorough>[,verbose]
+            let parts: Vec<&str> = spec.split(',').collect();
+            let seed = parts.first().and_then(|s| s.parse().ok()).unwrap_or(1);
+            guard_mode = Some((seed, parts.get(1) == Some(&"thorough"), parts.get(2) == Some(&"verbose")));
+            continue;
+        }
         if a == "--alloc" {
             alloc_mode = true;
         } else if a == "--info" {
@@ -170,6 +179,9 @@ fn main() {
         }
     }
     let cpu = detect();
+    if let Some((seed, thorough, verbose)) = guard_mode {
+        std::process::exit(guard::guard_main(seed, thorough, verbose, cpu.sse41, cpu.avx2));
+    }
     if want_info {
         println!("{}", info(cpu));
         return;
